@@ -53,6 +53,15 @@ Theorem c19_hmac_secret_input : forall u,
           blen x <= 32 /\ blen y <= 32 /\ blen se <= 80 /\ blen sa <= 32) (arb_hmac u).
 Proof. exact arb_hmac_ok. Qed.
 
+(* the borrowed generators (<&[u8]>, <&str>) and the credential descriptor built from them: for every input
+   byte string the text is valid UTF-8 and no panic site (peek_bytes(size).unwrap(), from_utf8_unchecked on
+   ill-formed bytes) is reached *)
+Theorem c19_str_ref : forall u, bytes_ok u = true -> good (fun s => utf8_valid s = true) (arb_strref u).
+Proof. exact arb_strref_ok. Qed.
+Theorem c19_descriptor_ref : forall u, bytes_ok u = true ->
+  good (fun v => exists id kt, v = VRec [("id", VBytes id); ("key_type", VStr kt)] /\ utf8_valid kt = true) (arb_descref u).
+Proof. exact arb_descref_ok. Qed.
+
 (* tie to the source for the hand-modelled procedural code: the bodies of these functions, as regenerated from
    /repo now, have the shape (literals, operators, calls, control flow, constants) the model was written against *)
 Theorem c19_modelled_functions_unchanged_arb : shapes_hold fn_shapes shapes_arb = true.
@@ -68,3 +77,5 @@ Eval vm_compute in "ASSUMPTIONS c19_modelled_functions_unchanged_arb". Print Ass
 Eval vm_compute in "ASSUMPTIONS c19_rp_entity". Print Assumptions c19_rp_entity.
 Eval vm_compute in "ASSUMPTIONS c19_user_entity". Print Assumptions c19_user_entity.
 Eval vm_compute in "ASSUMPTIONS c19_hmac_secret_input". Print Assumptions c19_hmac_secret_input.
+Eval vm_compute in "ASSUMPTIONS c19_str_ref". Print Assumptions c19_str_ref.
+Eval vm_compute in "ASSUMPTIONS c19_descriptor_ref". Print Assumptions c19_descriptor_ref.
